@@ -35,7 +35,7 @@ SPEC = {
   'exes': ['drv_c15'],
   'rule': (
     'FrozenDict: a case is one history of 5-24 operations (user dict construction and mutation: newDict/newLeaf/'
-    'setKey/delKey; API: getitem/items/freeze/unfreeze/copy (add_or_replace a dict, a FrozenDict, or a MappingProxyType/ChainMap/UserDict view of one)/pop/pickle/tree_map, function and method forms) over '
+    'setKey/delKey; API: getitem/items/freeze/unfreeze/copy (add_or_replace a dict, a FrozenDict, or a MappingProxyType/ChainMap/UserDict view of one)/pop/pickle/tree_map/tree_unflatten and tree_map with FrozenDict-valued children, function and method forms) over '
     'nested dicts mixing dict / FrozenDict / int / None / str / tuple / list / ndarray leaves with aliased sub-dicts; '
     'non-trivial when it contains at least one FrozenDict creation and one later user mutation. Struct: a case is one '
     'random field layout (1-5 fields, data/meta mix, nested structs as data and as static values) with its replace / '
@@ -185,6 +185,18 @@ def impl_step(roots, op):
       roots.append(pickle.loads(pickle.dumps(x)))
     elif tag == 'treeMap':
       roots.append(jax.tree_util.tree_map(lambda y: y, roots[op[1]]))
+    elif tag == 'unflatten':
+      # a FrozenDict whose children are given values (leaves or FrozenDicts) through the pytree protocol:
+      # tree_unflatten on a FrozenDict treedef, or tree_map with a function returning those values
+      ks = sorted(op[1], key=lambda p: p[0])
+      template = fz.freeze({k: j for j, (k, _) in enumerate(ks)})
+      vals = [roots[i] for _, i in ks]
+      if any(isinstance(v, dict) and not isinstance(v, FrozenDict) for v in vals):
+        raise InfraError('unflatten op with a mutable dict child is outside the modelled domain')
+      if op[2] == 'map':
+        roots.append(jax.tree_util.tree_map(lambda j: vals[j], template))
+      else:
+        roots.append(jax.tree_util.tree_unflatten(jax.tree_util.tree_structure(template), vals))
     else:
       raise InfraError(f'unknown op {op}')
   except InfraError:
@@ -448,6 +460,17 @@ def gen_history(rng, nops, hr):
       elif r < 0.92:
         x = pick('frozen') if (rng.random() < 0.6 and nf) else pick('dict')
         op = ['pop', x, key_for(roots[x]), rng.choice(['fn', 'method'])]
+      elif r < 0.935 and nf:
+        # FrozenDict built through the pytree protocol, children = held FrozenDicts (possibly themselves built this way) and leaves
+        keys = rng.sample(KEYS, rng.randrange(1, 4))
+        cand_f = [i for i, v in enumerate(roots) if kind_of(v) == 'frozen' and size_of(v) < 60]
+        cand_l = [i for i, v in enumerate(roots) if kind_of(v) == 'leaf']
+        ks = []
+        for k_ in keys:
+          pool = cand_f if (rng.random() < 0.7 or not cand_l) else cand_l
+          ks.append([k_, rng.choice(pool or cand_l or cand_f)])
+        ks.sort(key=lambda p: p[0])  # a FrozenDict treedef lists its keys sorted
+        op = ['unflatten', ks, rng.choice(['unflatten', 'map'])] if ks and all(i is not None for _, i in ks) and (cand_f or cand_l) else new_leaf_op()
       elif r < 0.95 and nf:
         op = ['pickle', pick('frozen')]
       else:
@@ -551,7 +574,9 @@ def value_oracles(roots, rng, drv_reqs, meta):
   if not frs:
     return bad
   rng.shuffle(frs)
-  for fd in frs[:3]:
+  # FrozenDicts that hold FrozenDict objects inside (built through tree_unflatten / tree_map) first
+  frs.sort(key=lambda x: 0 if any(isinstance(o, dict) and any(isinstance(v, FrozenDict) for v in o.values()) for o in gc.get_referents(x)) else 1)
+  for fd in frs[:4]:
     c = strip(dump_impl(fd))
     if _has_foreign(c):
       continue
@@ -573,7 +598,9 @@ def value_oracles(roots, rng, drv_reqs, meta):
       meta.append(('eq', [c, 'unfreeze(self)'], e3))
       h1, h2 = safe_hash(fd), safe_hash(twin)
       if h1 != h2:
-        bad.append(('hash-order-dependent', f'equal contents {json.dumps(c)} in another insertion order hash {h1} vs {h2}'))
+        bad.append(('hash-not-equal-for-equal-values', f'a FrozenDict with contents {json.dumps(c)} and freeze() of the same plain nested dict built in the opposite insertion order compare equal but hash {h1} vs {h2}'))
+      elif h1[0] == 'ok' and not (fd in {twin} and {twin: 1}.get(fd) == 1 and len({fd, twin}) == 1):
+        bad.append(('hash-not-equal-for-equal-values', f'set/dict membership fails between equal FrozenDicts with contents {json.dumps(c)}'))
       # (whether hashing a FrozenDict with an unhashable leaf raises is not part of the property: recorded, not judged)
       drv_reqs.append(('hash', [c]))
       meta.append(('hash', c, h1[0]))
@@ -584,8 +611,11 @@ def value_oracles(roots, rng, drv_reqs, meta):
       back = jax.tree_util.tree_unflatten(td, leaves)
       lc = [leaf_canon(x) for x in leaves]
       ok = isinstance(back, FrozenDict) and strip(dump_impl(back)) == c
-      same = td == td_t and [leaf_canon(x) for x in leaves_t] == lc
+      paths_t = [[getattr(k, 'key', None) for k in p] for p, _ in jax.tree_util.tree_flatten_with_path(twin, is_leaf=is_leafish)[0]]
       paths = [[getattr(k, 'key', None) for k in p] for p, _ in jax.tree_util.tree_flatten_with_path(fd, is_leaf=is_leafish)[0]]
+      # same leaves in the same order under the same key paths (node kinds dict/FrozenDict inside may differ: a child put in
+      # by tree_unflatten stays a FrozenDict node, a frozen plain dict is a dict node)
+      same = paths == paths_t and [leaf_canon(x) for x in leaves_t] == lc
     except Exception as e:
       bad.append(('flatten-raises', f'tree_flatten/unflatten of {json.dumps(c)} raised {type(e).__name__}'))
       continue
@@ -718,7 +748,7 @@ def history_stats(ctx, hr):
     if isinstance(r, FrozenDict):
       depth = max(depth, _depth(strip(dump_impl(r))))
   ctx.count('max_frozen_depth', depth)
-  first_fz = next((i for i, (op, st) in enumerate(zip(hr.ops, hr.steps)) if op[0] in ('freeze', 'copy', 'copyView', 'pop', 'pickle', 'treeMap', 'getitem') and st['r'] == 'ok' and any(isinstance(x, FrozenDict) for x in hr.roots[: st['n']])), None)
+  first_fz = next((i for i, (op, st) in enumerate(zip(hr.ops, hr.steps)) if op[0] in ('freeze', 'copy', 'copyView', 'pop', 'pickle', 'treeMap', 'unflatten', 'getitem') and st['r'] == 'ok' and any(isinstance(x, FrozenDict) for x in hr.roots[: st['n']])), None)
   mutated_after = first_fz is not None and any(
     op[0] in ('setKey', 'delKey') and st['r'] == 'ok' for op, st in list(zip(hr.ops, hr.steps))[first_fz + 1 :]
   )
@@ -790,6 +820,8 @@ def run_histories(ctx, drv, n, replay_ops=None):
 
 
 def _model_op(op):
+  if op[0] == 'unflatten':
+    return op[:2]
   if op[0] == 'copyView':
     return op[:3]
   return [x for x in op if x not in ('fn', 'method', 'ctor')] if op[0] not in ('setKey', 'delKey', 'getitem', 'pop') else op[: {'setKey': 4, 'delKey': 3, 'getitem': 3, 'pop': 3}[op[0]]]
@@ -814,7 +846,7 @@ EXH_BASE = [
 
 def _catalogue(roots, hs):
   """every operation of the alphabet on the handles `hs` (API calls, and mutations with a leaf / a dict / a FrozenDict value)"""
-  out = []
+  out = [['unflatten', [['u', 4], ['v', 1]], 'unflatten'], ['unflatten', [['u', 4]], 'map']]
   for h in hs:
     k = kind_of(roots[h])
     if k == 'leaf':
